@@ -8,7 +8,7 @@ RULE = (
     "family seq: operation sequences over a real event.Events / event.dispatcher target hierarchy built with type(): "
     "class creation (single and multiple inheritance, before and after registrations), instance creation, "
     "event.listen / listens_for (insert, propagate, once, named, retval-adapter), event.remove, event.contains, "
-    "dispatch on instances; exhaustive over three small alphabets (quick: length <= 5, <= 4 plus every third of length 5, <= 2; "
+    "dispatch on instances; exhaustive over three small alphabets (quick: length <= 4 plus every third of length 5 (two alphabets), <= 2; "
     "thorough: <= 7, <= 6, <= 4; sequences that leave the guarded region are sampled 1:12 beyond length 3) in a 3-class + 2-instance context, plus seeded random sequences over up to 5 classes / 3 instances / "
     "4 functions; the recorded calls and results are compared with the Coq model step by step and with the "
     "registration-log oracle. non-trivial = the sequence has a remove or a class created after a listen. "
@@ -45,10 +45,10 @@ LEVEL_TEXT = (
     "operation, every listener of every collection is registered for it however many _update hops it went through, "
     "remove() reaches every copy (guard: no function object twice in one collection; refutation outside). [only_once] "
     "the body of a once=True listener is entered at most once under every interleaving incl. re-entrant dispatch. "
-    "Coq refinement proof for every operation sequence (unbounded) over single-inheritance hierarchies without "
-    "repeated class-level registrations: every result of the model (calls of each dispatch, remove/contains results) "
-    "equals the registration-log specification; refutations for the three excluded regions (late multiple-inheritance "
-    "subclass, repeated class-level listen, removal of a function shared by base and subclass); walk_subclasses fuel "
+    "Coq refinement proof for every operation sequence (unbounded) over single-inheritance hierarchies in which no "
+    "unwrapped function is registered on both a class and its ancestor: every result of the model (calls of each dispatch, remove/contains results) "
+    "equals the registration-log specification; refutations for the excluded regions (late multiple-inheritance "
+    "subclass, removal of a function shared by base and subclass); walk_subclasses fuel "
     "proved sufficient for every reachable hierarchy. Interleaving model of exec_once: for all schedules of any "
     "number of threads, listener runs are mutually exclusive, at most one run sets the flag, runs <= 1 + failed "
     "retry runs, exactly one run at quiescence without exceptions."
@@ -420,7 +420,7 @@ def _conc_case(rng):
 def gen_cases(rng, tier):
     thorough = tier == "thorough"
     cases = []
-    cases += _exhaustive(ALPHA_A, 7 if thorough else 5, "seq-exh-class")
+    cases += _exhaustive(ALPHA_A, 7 if thorough else 5, "seq-exh-class", full_upto=7 if thorough else 4)
     cases += _exhaustive(ALPHA_B, 6 if thorough else 5, "seq-exh-inst", full_upto=6 if thorough else 4)
     cases += _exhaustive(ALPHA_C, 4 if thorough else 2, "seq-exh-mixed")
     for _ in range(12000 if thorough else 500):
@@ -655,10 +655,7 @@ def _expected_seq(ops):
                 exp.append([5])
             else:
                 plain = not (once or named or retval)
-                if any(r["tgt"] == (tk, tn) and r["fn"] == f for r in log):
-                    if tk == 0:
-                        mark = "dup"
-                else:
+                if not any(r["tgt"] == (tk, tn) and r["fn"] == f for r in log):
                     log.append({"tgt": (tk, tn), "fn": f, "ins": bool(ins), "once": bool(once), "plain": plain, "fired": False})
                 exp.append([0])
         elif code == 3:
@@ -1331,7 +1328,6 @@ def oracle(c, obs):
 
 FINDING_OF = {
     "late-mi": "C28-late-diamond-order",
-    "dup": "C28-class-double-listen",
     "shared": "C28-remove-shared-fn-order",
 }
 
